@@ -174,3 +174,40 @@ pub fn chunks(types: &[Ty], per: usize) -> (Vec<Chunk>, Vec<Ty>) {
         .collect();
     (chunks, skipped)
 }
+
+/// Band for the canonical-list decision of the Rust generator (`is_list_canonical`): a list whose
+/// element is, or contains, a tuple must not be copied as raw memory, because rustc is free to
+/// reorder tuple fields. `list<tuple<a,b,c>>` for every ordered triple over the scalar layout
+/// classes {u8,u16,u32,u64,f32,f64} with at least two distinct sizes (198), and for every ordered
+/// triple of distinct sizes over {u8,u16,u32,u64} (24) the same tuple inside a record element,
+/// and the list inside an option and inside a record.
+pub fn tuple_band() -> Vec<Ty> {
+    let sc = [Ty::U8, Ty::U16, Ty::U32, Ty::U64, Ty::F32, Ty::F64];
+    let size = |t: &Ty| refabi::abi::size(t, refabi::Width::W8);
+    let mut out = Vec::new();
+    for a in &sc {
+        for b in &sc {
+            for c in &sc {
+                if size(a) == size(b) && size(b) == size(c) {
+                    continue;
+                }
+                out.push(Ty::List(Box::new(Ty::Tuple(vec![a.clone(), b.clone(), c.clone()]))));
+            }
+        }
+    }
+    let ints = [Ty::U8, Ty::U16, Ty::U32, Ty::U64];
+    for a in &ints {
+        for b in &ints {
+            for c in &ints {
+                if a == b || b == c || a == c {
+                    continue;
+                }
+                let t = Ty::Tuple(vec![a.clone(), b.clone(), c.clone()]);
+                out.push(Ty::List(Box::new(Ty::Record(vec![t.clone()]))));
+                out.push(Ty::Option(Box::new(Ty::List(Box::new(t.clone())))));
+                out.push(Ty::Record(vec![Ty::U8, Ty::List(Box::new(t))]));
+            }
+        }
+    }
+    out
+}
